@@ -15,7 +15,8 @@ BUDGET = {"quick": 150, "thorough": 1500}
 def configs(tier):
     cs = [Config(levels=1, ndisks=2),
           Config(levels=2, ndisks=3, hashsize=8, hashkind="spooky2", contents=["c0/content", "d1/.content", "c1/content"]),
-          Config(levels=3, z=True, ndisks=2, splits={0: 2, 1: 2, 2: 3}, parity_limit=4096)]
+          Config(levels=3, z=True, ndisks=2, splits={0: 2, 1: 2, 2: 3}, parity_limit=4096),
+          Config(levels=2, ndisks=3, tag="hole")]
     if tier == "thorough":
         cs += [Config(levels=6, ndisks=3, hashsize=16, hashkind="spooky2"),
                Config(levels=3, ndisks=4, blocksize=2, contents=["c0/content", "c1/content"]),
@@ -33,6 +34,11 @@ def init_ops(cfg):
     if cfg.ndisks >= 3:
         ops.append(("write", "d3", "dir/c", 3000, 0))
     ops.append(("cmd", "sync"))
+    if cfg.tag == "hole":
+        # d3 is emptied, synced away with -E and dropped from the configuration: d1, d2 keep positions 0, 1;
+        # then a new disk d4 is added and takes ... whatever position snapraid assigns
+        ops += [("emptydisk", "d2"), ("cmd", "sync", "-E"), ("dropdisk", "d2"), ("write", "d3", "b", 1025, 0),
+                ("cmd", "sync")]
     return ops
 
 
@@ -55,8 +61,11 @@ CMDS_THOROUGH = [("cmd", "fix", "-e"), ("cmd", "fix", "-m"), ("cmd", "scrub", "-
                  ("cmd", "sync", "-h", "-B", "1")]
 
 
-def alphabet(tier):
+def alphabet(tier, cfg=None):
     ops = FILE_OPS + CMDS + (CMDS_THOROUGH if tier == "thorough" else [])
+    if cfg is not None and cfg.tag == "hole":
+        ops = [tuple("d3" if x == "d2" else x for x in op) if op[0] != "cmd" else
+               tuple(x.replace("/d2/", "/d3/") if isinstance(x, str) else x for x in op) for op in ops]
 
     def fn(hist, info):
         last = hist[-1] if hist else None
@@ -120,7 +129,7 @@ def run(ctx):
             ctx.violation(key_of(v), "%s in %s after %s" % (v["kind"], cfg.short(), v["where"]),
                           dict(cfg=cfg.describe(), history=hist, violation=v))
 
-        ex = X.Explorer(ctx, cfg, init_ops(cfg), alphabet(tier), step, depth, label=cfg.short(), seed=ctx.seed)
+        ex = X.Explorer(ctx, cfg, init_ops(cfg), alphabet(tier, cfg), step, depth, label=cfg.short(), seed=ctx.seed)
         ex.run(on_violation)
         tot_states += ex.states
         tot_trans += ex.transitions
